@@ -331,8 +331,6 @@ Proof.
   { intros N I. apply HQ in I. destruct I as [I | [I _]]; auto. }
   destruct p' as [|k| | | | |[|]]; simpl in *; auto;
     try (destruct H as [H1 H2]; split; auto; rewrite HF; auto; fail).
-  - destruct H as [[c H1] H2]. split; auto. exists c. rewrite HF; auto.
-  - destruct H as [[c H1] H2]. split; auto. exists c. rewrite HF; auto.
 Qed.
 
 Record Inv (su : setup) (pre : option (list N)) (w : world) : Prop := {
@@ -370,11 +368,11 @@ Proof.
   - (* PCopy *)
     simpl in HT. destruct HT as [HF HQ].
     destruct (match copy_fail pl with Some k' => Nat.eqb k k' | None => false end).
-    + inversion HS; subst. simpl. repeat split; eauto. intros; auto.
+    + inversion HS; subst. simpl. repeat split; eauto.
     + destruct (nth_error body k) as [ch|] eqn:EN.
       * rewrite HF in HS. inversion HS; subst. simpl in *.
         rewrite created_by_self, HB. simpl. repeat split; auto.
-        -- rewrite (firstn_snoc _ _ _ EN). reflexivity.
+        -- rewrite <- (firstn_snoc _ _ _ EN). reflexivity.
         -- eapply frame_other; eauto; simpl.
            ++ intro O. destruct (OTH O) as [c X]. rewrite HF in X. inversion X. congruence.
            ++ intro x. tauto.
@@ -387,18 +385,18 @@ Proof.
     simpl in HT. destruct HT as [HF HQ]. inversion HS; subst. simpl in *. repeat split; auto.
     + (* NoDup *)
       clear - ND HQ. induction (queued sh) as [|a l IH]; simpl.
-      * constructor; auto. constructor.
+      * constructor; [simpl; tauto | constructor].
       * inversion ND; subst. constructor.
         -- intro I. apply in_app_or in I. destruct I as [I | [I | []]]; auto. subst. apply HQ. left. reflexivity.
         -- apply IH; auto. intro I. apply HQ. right. exact I.
     + apply in_or_app. right. left. reflexivity.
     + eapply frame_other; eauto; simpl.
       * intro x. rewrite in_app_iff. simpl. split.
-        -- intros [I | [I | []]]; auto. subst x. right. split; auto. apply in_or_app. right. left. reflexivity.
+        -- intros [I | [I | []]]; auto. subst x. right. split; auto; apply in_or_app; right; left; reflexivity.
         -- intros [I | [_ I]]; auto.
       * intro I. apply in_or_app. left. exact I.
   - (* PErrClose *)
-    simpl in HT. inversion HS; subst. simpl. repeat split; auto.
+    simpl in HT. destruct HT as [[c HF] HQ]. inversion HS; subst. simpl. repeat split; eauto.
   - (* PErrRemove *)
     simpl in HT. destruct HT as [[c HF] HQ].
     destruct (remove_fail pl).
@@ -423,12 +421,14 @@ Lemma step_inv : forall su pre w t, s_excl su = true -> Inv su pre w -> Inv su p
 Proof.
   intros su pre w t EX [HB ND H1 H2 HP]. unfold step. rewrite EX. destruct t.
   - destruct (step_thread true true (s_body1 su) (s_plan1 su) (w_sh w) (w_pc1 w)) as [sh2 p2] eqn:ES.
-    destruct (step_thread_inv true _ _ _ _ false (s_body2 su) (w_pc2 w) sh2 p2) with (5 := ES)
-      as [A [B [C [D E]]]]; auto. discriminate.
+    assert (NT : false <> true) by discriminate.
+    destruct (step_thread_inv true (s_body1 su) (s_plan1 su) (w_sh w) (w_pc1 w) false (s_body2 su) (w_pc2 w) sh2 p2
+                NT HB ND H1 H2 ES) as [A [B [C [D E]]]].
     constructor; simpl; auto.
   - destruct (step_thread true false (s_body2 su) (s_plan2 su) (w_sh w) (w_pc2 w)) as [sh2 p2] eqn:ES.
-    destruct (step_thread_inv false _ _ _ _ true (s_body1 su) (w_pc1 w) sh2 p2) with (5 := ES)
-      as [A [B [C [D E]]]]; auto. discriminate.
+    assert (NT : true <> false) by discriminate.
+    destruct (step_thread_inv false (s_body2 su) (s_plan2 su) (w_sh w) (w_pc2 w) true (s_body1 su) (w_pc1 w) sh2 p2
+                NT HB ND H2 H1 ES) as [A [B [C [D E]]]].
     constructor; simpl; auto.
 Qed.
 
@@ -495,8 +495,8 @@ Proof.
   destruct (queued (w_sh w)) as [|a [|b l]] eqn:EQ; simpl; auto.
   exfalso. inversion ND as [|? ? NI ND']; subst.
   assert (AB : a <> b). { intro; subst. apply NI. left. reflexivity. }
-  assert (I1 : In true (a :: b :: l)). { destruct a, b; simpl; auto. contradiction AB; auto. }
-  assert (I2 : In false (a :: b :: l)). { destruct a, b; simpl; auto. contradiction AB; auto. }
+  assert (I1 : In true (a :: b :: l)). { destruct a, b; simpl; auto; contradiction AB; auto. }
+  assert (I2 : In false (a :: b :: l)). { destruct a, b; simpl; auto; contradiction AB; auto. }
   apply Q1 in I1. apply Q2 in I2. apply F1 in I1. apply F2 in I2. congruence.
 Qed.
 
